@@ -20,7 +20,11 @@ CFG = "monkeytype.config"
 
 ROOTS = {"stdlib": "/py/stdlib", "purelib": "/opt/pylink/site", "platlib": "/py/site64"}  # purelib is configured through a link
 OTHER_SYSCONFIG = {"platstdlib": "/py/platstd", "include": "/py/include", "scripts": "/py/bin", "data": "/py"}
-SYMLINKS = {("/", "link"): ("/", "py", "site"), ("/", "opt", "pylink"): ("/", "py")}  # /link -> /py/site, /opt/pylink -> /py
+SYMLINKS = {("/", "link"): ("/", "py", "site"), ("/", "opt", "pylink"): ("/", "py"),  # /link -> /py/site, /opt/pylink -> /py
+            # links whose LAST component is the link: a file of the project that points into site-packages, and an entry of
+            # site-packages that points at a working copy (a development install)
+            ("/", "home", "u", "app", "vendored.py"): ("/", "py", "site", "requests", "api.py"),
+            ("/", "py", "site", "devpkg.py"): ("/", "home", "u", "work", "devpkg.py")}
 CWD = ("/", "home", "u", "app")
 
 # (co_filename, description)
@@ -37,6 +41,8 @@ FILES: List[Tuple[str, str]] = [
     ("/py/site64/numpy/core.py", "site-packages (platlib)"),
     ("/link/requests/api.py", "site-packages reached through a symbolic link"),
     ("/opt/pylink/site/requests/api.py", "site-packages named the way sysconfig names it (through a link)"),
+    ("/home/u/app/vendored.py", "file of the project that is itself a symbolic link to a site-packages file"),
+    ("/py/site/devpkg.py", "entry of site-packages that is itself a symbolic link to a file of a working copy"),
     ("/py/stdlibx/evil.py", "directory whose name merely starts like a library root"),
     ("/home/u/py/stdlib/x.py", "user directory that repeats the root's last components"),
 ]
